@@ -22,7 +22,10 @@ void rc_explore(Ctx &ctx, const std::string &stream, int cases, int max_size, Ge
     KV last_kv; std::string last_msg; bool any_fail = false;
     rc::detail::TestMetadata md; md.id = stream; md.description = stream;
     auto result = rc::detail::checkTestable([&] {
-        C c = gen();
+        // rapidcheck scales integer ranges by the test "size", which cycles 0..maxSize: rc::gen::inRange(0, n) then rarely reaches the
+        // top of its range (a value v needs size >= 100 v / n).  The generators here state their ranges explicitly and mean them
+        // uniformly, so the whole case is drawn at the nominal size; shrinking (towards the lower bounds) is unaffected.
+        C c = *rc::gen::resize(100, rc::gen::exec(gen));
         std::string msg; bool ok;
         { Guard g(ctx.cur_sub, c); ok = run(c, msg); }
         ctx.count(key(c), nontrivial(c));
